@@ -80,6 +80,9 @@ func (rs *RuleSet) visit(state string, viaInclude bool, f func(r RuleSpec, viaIn
 
 var reCache = map[string]*regexp.Regexp{}
 
+// Compile compiles (and caches) a pattern.
+func Compile(p string) (*regexp.Regexp, error) { return compile(p) }
+
 func compile(p string) (*regexp.Regexp, error) {
 	if re, ok := reCache[p]; ok {
 		return re, nil
@@ -105,7 +108,11 @@ func isWordByte(b byte) bool {
 // \N replaced by the quoted N-th group of the rule that entered the state; lower-case rules
 // consume silently; error when nothing matches, the selected rule matched nothing, or a
 // back-reference names a missing group.
-func RefLex(rs *RuleSet, in string) RefResult {
+func RefLex(rs *RuleSet, in string) RefResult { return RefLexTried(rs, in, nil) }
+
+// RefLexTried is RefLex with a hook that is called for every (offset, rule) pair the lexer tries,
+// with the remaining input and the pattern after back-reference expansion.
+func RefLexTried(rs *RuleSet, in string, tried func(off int, r RuleSpec, pattern, rest string)) RefResult {
 	res := RefResult{ErrOff: -1}
 	stack := []frame{{state: "Root"}}
 	off := 0
@@ -166,6 +173,9 @@ func RefLex(rs *RuleSet, in string) RefResult {
 			}
 			if sel == nil && off > 0 && isWordByte(in[off-1]) && anchorish.MatchString(pat) {
 				res.AnchorAfter++
+			}
+			if sel == nil && tried != nil {
+				tried(off, r, pat, rest)
 			}
 			loc := re.FindStringSubmatchIndex(rest)
 			if loc != nil && loc[0] == 0 {
